@@ -225,17 +225,21 @@ def Outcome.indexTuples (o : Outcome) : List (List Nat) :=
 
 /-- `compute_correlations(…, times_a, times_b, time_order)`: which spec goes first, and the
     post-processing `(corr[0][::-1], corr[-1].transpose())` for `'anti'`. -/
+def antiPost (o : Outcome) : Outcome :=
+  { steps := o.steps.reverse, axes := o.axes.reverse,
+    writes := o.writes.map (fun w => (w.1.reverse, w.2)) }
+
+def pickSpecs (specA specB : TimeSpec) (names : List String) : List TimeSpec :=
+  names.filterMap (fun n => if n == "times_a" then some specA
+                            else if n == "times_b" then some specB else none)
+
 def corr2 (anti : Bool) (maxStep : Int) (dt start : Rat) (specA specB : TimeSpec) :
     Except Err Outcome :=
-  let pick (names : List String) : List TimeSpec :=
-    names.filterMap (fun n => if n == "times_a" then some specA
-                              else if n == "times_b" then some specB else none)
   if anti then
-    match corrNt maxStep dt start (pick anti_ops_times) with
+    match corrNt maxStep dt start (pickSpecs specA specB anti_ops_times) with
     | .error e => .error e
-    | .ok o => .ok { steps := o.steps.reverse, axes := o.axes.reverse,
-                     writes := o.writes.map (fun w => (w.1.reverse, w.2)) }
-  else corrNt maxStep dt start (pick ordered_ops_times)
+    | .ok o => .ok (antiPost o)
+  else corrNt maxStep dt start (pickSpecs specA specB ordered_ops_times)
 
 /-! ### which time step goes where -/
 
